@@ -35,6 +35,7 @@ type Entry struct {
 type Req struct {
 	Kind    string  `json:"kind"` // attest | attests | propose | sign | multisign
 	ViaGRPC bool    `json:"via_grpc,omitempty"`
+	Share   string  `json:"share,omitempty"` // how batch entries relate: unique | identical | one-field
 	Entries []Entry `json:"entries"`
 }
 
@@ -192,16 +193,68 @@ func genCase(t *rapid.T) *Case {
 		// distinct keys: a random start and stride over the pool
 		start := rapid.IntRange(0, NKeys-1).Draw(t, "kstart")
 		stride := rapid.SampledFrom([]int{1, 3, 7, 11}).Draw(t, "kstride") // all coprime with 620
+		// how the entries of a batch relate: unique data per entry, the same duty for every validator
+		// (what a real beacon node sends), or the same duty with one field changed per entry
+		share := "unique"
+		if n > 1 {
+			share = rapid.SampledFrom([]string{"unique", "unique", "identical", "one-field", "one-field"}).Draw(t, "share")
+		}
+		r.Share = share
+		var baseAtt *vkit.Att
+		var baseGen *vkit.Generic
 		for j := 0; j < n; j++ {
 			key := (start + j*stride) % NKeys
 			e := Entry{Key: key, ByKey: rapid.Bool().Draw(t, "bykey")}
 			switch kind {
 			case "attest", "attests":
-				e.Att = g.att(t, key)
+				a := g.att(t, key)
+				if share != "unique" {
+					if baseAtt == nil {
+						baseAtt = a
+					} else {
+						// same duty; epochs stay those drawn for this key so that the request advances
+						c := *baseAtt
+						c.SrcEpoch, c.TgtEpoch = a.SrcEpoch, a.TgtEpoch
+						if share == "one-field" {
+							switch rapid.IntRange(0, 5).Draw(t, "field") {
+							case 0:
+								c.Slot++
+							case 1:
+								c.Index++
+							case 2:
+								c.BlockRoot = a.BlockRoot
+							case 3:
+								c.SrcRoot = a.SrcRoot
+							case 4:
+								c.TgtRoot = a.TgtRoot
+							default:
+								c.Domain = a.Domain
+							}
+						}
+						a = &c
+					}
+				}
+				e.Att = a
 			case "propose":
 				e.Prop = g.prop(t, key)
 			default:
-				e.Gen = g.generic(t)
+				gg := g.generic(t)
+				if share != "unique" {
+					if baseGen == nil {
+						baseGen = gg
+					} else {
+						c := *baseGen
+						if share == "one-field" {
+							if rapid.Bool().Draw(t, "gfield") {
+								c.Data = gg.Data
+							} else {
+								c.Domain = gg.Domain
+							}
+						}
+						gg = &c
+					}
+				}
+				e.Gen = gg
 			}
 			r.Entries = append(r.Entries, e)
 		}
@@ -315,6 +368,9 @@ func run(c *Case) (*outcome, *vkit.Violation, error) {
 		}
 		o.summaries = append(o.summaries, map[string]any{"kind": r.Kind, "entries": len(r.Entries), "via_grpc": r.ViaGRPC, "succeeded": ok, "first_entry": r.Entries[0]})
 		vkit.S.Class("endpoint-" + r.Kind)
+		if len(r.Entries) > c.Procs && r.Share != "" && r.Share != "unique" {
+			vkit.S.Class("batch-sharing-data-" + r.Share)
+		}
 		if len(r.Entries) >= 100 {
 			vkit.S.Class("batch>=100")
 		}
